@@ -251,6 +251,7 @@ def _r2(run, classes):
         run.ok('C03-R2', 'TotalRadiatedPower hydrogen sum', 'nhyd = sum over cached hydrogen species', sample=False)
     else:
         run.fail('C03-R2', '%s|TotalRadiatedPower|emission|hydrogen-sum' % ci.mod.name, ci.mod.relpath, fn.lineno, 'nhyd is not the sum over the cached hydrogen species')
+    _trp_paths(run, classes['TotalRadiatedPower'])
     # bremsstrahlung function
     ci = classes['BremsFunction']
     fn, e, rec = body_env(ci, 'evaluate', follow_if=True)
@@ -296,6 +297,68 @@ def _r2(run, classes):
         run.fail('C03-R2', '%s|Bremsstrahlung|emission|function-parameters' % ci.mod.name, ci.mod.relpath, fn.lineno,
                  'Bremsstrahlung does not hand the sampled ne/te to the free-free function: %s' % {k: v for k, v in sts.items() if 'brems' in k})
     run.floor('C03-R2', 10)
+
+
+def _trp_paths(run, ci):
+    """TotalRadiatedPower.emission per path: a path that leaves without adding anything must have every one of the three terms
+    (line power ~ n_i, recombination ~ n_(i+1), CX ~ n_(i+1) n_H) switched off by what it established; ne <= 0 / te <= 0 excepted."""
+    from ..pathinterp import PathInterp
+    from ..exprcmp import EmEval
+    fn = ci.methods['emission']
+    pt, dr, sp = [a.arg for a in fn.args.args[1:4]]
+    XYZ = '(%s.x, %s.y, %s.z)' % (pt, pt, pt)
+    run.subject('C03-R2')
+    try:
+        paths = PathInterp(fn, (), {}, evaluator=EmEval, max_paths=512, store_prefixes=(sp + '.samples',), resolve_keys=True).run()
+    except Exception as e:
+        run.undecided('C03-R2', 'TotalRadiatedPower paths', 'cannot interpret: %s' % e)
+        return
+    NI = 'self._line_rad_species.distribution.density' + XYZ
+    NU = 'self._recom_species.distribution.density' + XYZ
+    NE = 'self._plasma.get_electron_distribution().density' + XYZ
+    TE = 'self._plasma.get_electron_distribution().effective_temperature' + XYZ
+
+    def positive(dec, q):
+        """True / False / None: what the path knows about q > 0"""
+        for k, b in dec.items():
+            m = k.replace(' ', '')
+            qq = q.replace(' ', '')
+            for suf, pos in (('>0', True), ('>0.0', True), ('<=0', False), ('<=0.0', False), ('==0', False), ('==0.0', False), ('!=0', True)):
+                if m == qq + suf:
+                    return b if pos else (not b)
+        return None
+    bad = None
+    n_silent = n_emit = 0
+    for p_ in paths:
+        if p_.returned is not None and p_.returned.key() == 'raise':
+            continue
+        dec = dict(p_.decisions)
+        if positive(dec, NE) is False or positive(dec, TE) is False:
+            continue
+        if p_.stores:
+            n_emit += 1
+            continue
+        n_silent += 1
+        pi_, pu_ = positive(dec, NI), positive(dec, NU)
+        rate_off = {r: (dec.get('self._%s_rate' % r) is False) for r in ('plt', 'prb', 'prc')}
+        hyd = [positive(dec, k.split(' > ')[0]) for k in dec if 'hyd' in k and ' > ' in k]
+        nh_off = any(h is False for h in hyd)
+        line_off = pi_ is False or rate_off['plt']
+        rec_off = pu_ is False or rate_off['prb']
+        cx_off = pu_ is False or rate_off['prc'] or nh_off
+        # nothing was added although power_density may be zero only if every term is off
+        if not (line_off and rec_off and cx_off):
+            live = [n for n, off in (('line power (n_i)', line_off), ('recombination (n_(i+1))', rec_off), ('charge exchange (n_(i+1) n_H)', cx_off)) if not off]
+            bad = (dec, live)
+            break
+    if bad:
+        run.fail('C03-R2', '%s|TotalRadiatedPower|emission|term-dropped' % ci.mod.name, ci.mod.relpath, fn.lineno,
+                 'TotalRadiatedPower.emission returns without adding anything on the path %s, where the term(s) %s can still be non-zero: '
+                 'that part of the documented total is dropped' % ({k[-40:]: v for k, v in bad[0].items()}, bad[1]))
+    elif n_emit:
+        run.ok('C03-R2', 'TotalRadiatedPower no term dropped', '%d emitting paths; %d silent paths, each with all three terms switched off' % (n_emit, n_silent))
+    else:
+        run.undecided('C03-R2', 'TotalRadiatedPower paths', 'no emitting path recognised')
 
 
 # ------------------------------------------------------------------------------------------ R3
@@ -485,6 +548,8 @@ _TR = P + 'total_radiated_power.pyx'
 _BR = P + 'bremsstrahlung.pyx'
 _CO = 'cherab/core/utility/constants.pyx'
 MUTANTS = [
+    dict(name='trp-early-return-when-either-state-is-absent', file=P + 'total_radiated_power.pyx', find="        nhyd = 0\n        for hyd_species in self._hydrogen_species:",
+         replace="        if ni <= 0 or ni_upper <= 0:\n            return spectrum\n        nhyd = 0\n        for hyd_species in self._hydrogen_species:", expect='C03-R2'),
     dict(name='ne-ni-to-ni-ni', file=_IE, find="radiance = RECIP_4_PI * self._rates.evaluate(ne, te) * ne * ni", replace="radiance = RECIP_4_PI * self._rates.evaluate(ne, te) * ni * ni", expect='C03-R2'),
     dict(name='recombination-same-charge', file=_RC, find="        receiver_charge = self._line.charge + 1", replace="        receiver_charge = self._line.charge", expect='C03-R3'),
     dict(name='guard-deleted', file=_RC, find="        if te <= 0.0:\n            return spectrum\n", replace="", expect='C03-R1'),
@@ -501,5 +566,7 @@ MUTANTS = [
     dict(name='brems-exponent-sign', file=_BR, find="exp(- EXP_FACTOR / (self.te * wvl))", replace="exp(EXP_FACTOR / (self.te * wvl))", expect='C03-R2'),
 ]
 TWINS = [
+    dict(name='trp-early-return-when-both-states-are-absent', file=P + 'total_radiated_power.pyx', find="        nhyd = 0\n        for hyd_species in self._hydrogen_species:",
+         replace="        if ni <= 0 and ni_upper <= 0:\n            return spectrum\n        nhyd = 0\n        for hyd_species in self._hydrogen_species:"),
     dict(name='product-computed-first', file=_IE, find="        radiance = RECIP_4_PI * self._rates.evaluate(ne, te) * ne * ni", replace="        nn = ni * ne\n        radiance = nn * self._rates.evaluate(ne, te) * RECIP_4_PI"),
 ]
